@@ -9,6 +9,9 @@ CONSTANTS
   MaxEvents = 3
   MaxDeliver = 1000
   MaxReinit = 0
+  EXPECTED = {1}
+  MaxBuf = 0
+  InitOrder = "snapshot-first"
   MaxLen = 3
 INVARIANT Emit
 CHECK_DEADLOCK FALSE
